@@ -335,6 +335,7 @@ PROPS = {
     ),
     'C11': dict(
         areas=[('ansi', 20000, 3000000)],
+        procs=['pipe'], needs_fzf=True,
         rule='two streams: (a) arbitrary bytes assembled from fragments of escape syntax (ESC, CSI/OSC openers and terminators, '
              'parameter bytes, BS, SO/SI, newlines, multi-byte and invalid UTF-8), with and without a carried-over state; '
              '(b) grammar-generated interleavings of text with SGR operations (16/256/24-bit colours with ; and : separators, '
